@@ -112,14 +112,18 @@ PROPS = {
     "C12": dict(
         units=["oplog"],
         kani=[K_CODEC],
-        undecided=["rotation: Oplog::get_log_file_append_mode / remove_old_db_files (directory listing, creation times) - 'rotation keeps the newest records' is NOT decided",
-                   "read_operations_since's loop over the rotated files (fs::read_dir) is glue: the per-file contract is what is proved",
+        undecided=["rotation: Oplog::get_log_file_append_mode / remove_old_db_files (rename, directory listing, creation times) - 'rotation keeps the newest records and never drops a "
+                   "record within the configured size' is NOT decided",
+                   "that the directory listing really is sorted by creation time and that the files are in time order (get_op_log_entries_by_creation_date is a trusted external; "
+                   "files_in_order is the hypothesis of lemma_most_recent_wins)",
                    "termination of the search loop is not proved (exec_allows_no_decreases_clause)",
                    "that the writer keeps timestamps non-decreasing and the file a whole number of records (preconditions sorted_log / well_formed_log)"],
         assumptions=["file model: std::fs::File is a byte sequence plus position; seek(Start) sets it; read never fails and is short only at EOF; metadata().len() is the size",
                      "BufWriter<File> in append mode is modelled by LogStream: write() of <= 25 bytes appends all of them",
                      "u64::from_le_bytes / to_le_bytes equal vstd's little-endian spec functions; format!(\"{}_{}\", db, key) is an uninterpreted text",
-                     "every finite character sequence is the text of some String (axiom_string_exists)"],
+                     "every finite character sequence is the text of some String (axiom_string_exists)",
+                     "the oplog directory is a list of opaque DirEntry values with a name; Vec::reverse reverses; format!(\"{}/{}\", dir, name) is an uninterpreted function of its "
+                     "arguments (the same function names the file when it is read)"],
     ),
     "C13": dict(
         units=["consensus", "store", "listing"],
@@ -221,7 +225,7 @@ PROPS = {
                    "ReplicationMessage::count_replication", "ReplicationMessage::count_acknowledged", "ReplicationMessage::get_copy", "Databases::register_pending_opp",
                    "Databases::acknowledge_pending_opp", "Databases::get_pending_opp_copy"],
                    "parser": PARSER_FNS, "sessions": ["Database::inc_connections", "Database::dec_connections", "Database::connections_count", "release_previous_db",
-                   "Client::left", "Client::selected_db_name", "arm_use_db"], "oplog": ["read_operations_since_from_file", "Oplog::last_op_time", "Oplog::write_op_log", "ReplicateOpp::to_u8", "From<u8>@ReplicateOpp::from", "OpLogRecord::new"], "ids": ["generate_key_id", "create_temp_db", "Databases::add_database", "Databases::next_db_id"], "consensus": ["Database::try_resolve_conflict_response", "apply_change_to_db_try_fix_conflicts",
+                   "Client::left", "Client::selected_db_name", "arm_use_db"], "oplog": ["read_operations_since", "read_operations_since_from_file", "Oplog::last_op_time", "Oplog::write_op_log", "ReplicateOpp::to_u8", "From<u8>@ReplicateOpp::from", "OpLogRecord::new"], "ids": ["generate_key_id", "create_temp_db", "Databases::add_database", "Databases::next_db_id"], "consensus": ["Database::try_resolve_conflict_response", "apply_change_to_db_try_fix_conflicts",
                    "set_key_value", "Database::resolve_conflit", "Database::has_arbiter_connected", "Change::new"]},
         undecided=["transport loops, dispatcher unwraps (e.g. try_send(..).unwrap() in the rp arm), lock poisoning propagation",
                    "Request::parse's table lookup (lazy_static HashMap of fn pointers) and the two snapshot parsers (iterator pipelines) are not verified",
